@@ -187,6 +187,33 @@ theorem spp_pos (size M : Nat) (hs : 1 ≤ size) (hM : 1 ≤ M) : 1 ≤ subpixel
   have hdvd : M ∣ Nat.lcm size M := Nat.dvd_lcm_right size M
   exact Nat.div_pos (Nat.le_of_dvd hpos hdvd) (by omega)
 
+/-! ### `subpixels_per_pixel` in the integer arithmetic of the code (structural tie) -/
+
+theorem roundHalfEven_nonneg (x : Rat) (hx : 0 ≤ x) : 0 ≤ roundHalfEven x := by
+  unfold roundHalfEven
+  have hf : 0 ≤ x.floor := Rat.le_floor_iff.mpr (by simpa using hx)
+  simp only
+  split_ifs <;> omega
+
+theorem magRound_nonneg (m : Rat) (hm : 0 < m) : 0 ≤ roundHalfEven (if m < 1 then fl (1 / m) else m) := by
+  apply roundHalfEven_nonneg
+  split_ifs with h
+  · have : ¬ fl (1 / m) < 0 := by
+      rw [fl_neg_iff]; exact not_lt.mpr (by positivity)
+    exact not_lt.mp this
+  · exact hm.le
+
+/-- `np.lcm(size, mag) // mag` in integer arithmetic (as the code computes it) is the model's `subpixelsPerPixel` -/
+theorem spp_int_eq (size : Nat) (m : Rat) (hm : 0 < m) :
+    Int.fdiv ((Int.lcm (size : Int) (roundHalfEven (if m < 1 then fl (1 / m) else m)) : Nat) : Int)
+        (roundHalfEven (if m < 1 then fl (1 / m) else m))
+      = ((subpixelsPerPixel size m : Nat) : Int) := by
+  have h0 := magRound_nonneg m hm
+  unfold subpixelsPerPixel magInt
+  generalize roundHalfEven (if m < 1 then fl (1 / m) else m) = r at h0 ⊢
+  obtain ⟨n, rfl⟩ := Int.eq_ofNat_of_zero_le h0
+  rw [Int.fdiv_eq_ediv_of_nonneg _ (by omega)]
+  simp [Int.lcm]
 /-! ### `maxList`, effective offsets -/
 
 theorem foldl_max_ge (l : List Nat) (a : Nat) : a ≤ l.foldl max a := by
